@@ -299,9 +299,15 @@ class Sandbox:
             if context.abandoned:
                 return False
             context.finished = True
-            self._stop_mocking(context)
-            if exception is not None:
-                self._capture_exception(exception, exc_info, code, filename)
+            try:
+                # Describing a student's exception runs the student's own
+                # __str__/__repr__: that is still their code, and whatever it
+                # does to stdout, the module table or time.sleep is undone
+                # with the rest of the execution
+                if exception is not None:
+                    self._capture_exception(exception, exc_info, code, filename)
+            finally:
+                self._stop_mocking(context)
             return True
 
     def run(self, code=None, filename=None, inputs=None, threaded=None,
